@@ -255,15 +255,31 @@ def threshold_everywhere(ck, rule):
     # the funnel's dtype decision
     f = A.funnel(prog)
     hits = 0
-    for node in ast.walk(f.node):
+    from ..common import walk_closure
+    for _g, node in walk_closure(prog, f):            # set_val and the stages split off it
         if isinstance(node, ast.If):
             sets_obj = any(isinstance(s, ast.Assign) and any(dotted(t) == "val_dtype" for t in s.targets) and dotted(s.value) == "object" for s in node.body)
             if not sets_obj:
                 continue
             hits += 1
-            disj = node.test.values if isinstance(node.test, ast.BoolOp) and isinstance(node.test.op, ast.Or) else [node.test]
+            test_ = node.test
+            if isinstance(test_, ast.Call):
+                # the decision factored into a one-expression helper: `if self._needs_object_storage(val):`
+                from ..paths import Inliner, subst as _subst
+                q_ = prog.resolve_call(f, test_)
+                from ..pinned import PINNED_FUNCS as _PF
+                if q_ in prog.funcs and q_ not in _PF:
+                    g_ = prog.funcs[q_]
+                    b_ = Inliner.simple_expr(g_)
+                    if b_ is not None:
+                        ps_ = [p_ for p_ in g_.params if p_ != "self"]
+                        env_ = dict(zip(ps_, test_.args))
+                        for s_ in b_[:-1]:
+                            env_[s_.targets[0].id] = _subst(s_.value, env_)
+                        test_ = _subst(b_[-1].value, env_)
+            disj = test_.values if isinstance(test_, ast.BoolOp) and isinstance(test_.op, ast.Or) else [test_]
             word = [d for d in disj if isinstance(d, ast.Compare) and dotted(d.left) == "self.n_word"]
-            okw = len(word) == 1 and isinstance(word[0].ops[0], ast.GtE) and (_threshold_ok(prog, word[0].comparators[0]) or _is_local_threshold(f, word[0].comparators[0]))
+            okw = len(word) == 1 and isinstance(word[0].ops[0], ast.GtE) and (_threshold_ok(prog, word[0].comparators[0]) or _is_local_threshold(_g, word[0].comparators[0]) or _is_local_threshold(f, word[0].comparators[0]))
             ck.check(okw, rule, f, "set_val stores Python-int objects exactly when n_word >= the word maximum (64)", "object-carrier test %s" % src(node.test)[:120], node,
                      "values are kept in int64/uint64 beyond their capacity, or floats lose their rounding on the object path")
             others = [d for d in disj if d not in word]
@@ -405,8 +421,8 @@ def machine_carrier(ck, rule):
     n = 0
     for pf in fpaths(prog, f):
         for st in pf.stores:
-            if st.path != "val_dtype" or st.depth:
-                continue
+            if st.path != "val_dtype":
+                continue              # (at any inlining depth: the stages set_val was split into are part of it)
             n += 1
             v = dotted(st.raw_value) if not isinstance(st.raw_value, ast.IfExp) else None
             vs = dotted(st.value)
@@ -414,6 +430,11 @@ def machine_carrier(ck, rule):
             for t, pol in path_literals(st.guards):
                 if dotted(t) == "self.signed":
                     sg = pol
+            if sg is None:
+                # the signedness test may sit inside a helper that returned the type (its guards are path conditions, no longer enclosing)
+                for t, pol in path_literals(pf.guards):
+                    if dotted(t) == "self.signed":
+                        sg = pol
             good = vs in ("object", "np.object_") or (vs == "np.int64" and sg is True) or (vs == "np.uint64" and sg is False)
             key = (id(st.stmt), vs, sg)
             if key in seen:
